@@ -112,13 +112,22 @@ def gen_plan(prop, tier, rng, i):
             "proc_tz": rng.choice([None, None, "XYZ5", "ABC-05:30", "EST5EDT,M3.2.0,M11.1.0"]),
             # where the watched tree lives (a `mktemp -d` directory is called tmp.XXXXXXXXXX)
             "root_dir": rng.choice([None, None, None, "tmp.k3J9xQ2v1B/watched", "tmp.data"])}
+    if rng.random() < 0.3:
+        # bounds need not be whole milliseconds (datetimes carry microseconds); the events above sit on the integer
+        # edges, so a file named exactly T is outside a window that starts at T + 0.5 ms
+        if plan["wstart"] is not None:
+            plan["wstart"] += rng.choice([0.5, 0.001, 0.999])
+        if plan["wend"] is not None and rng.random() < 0.5:
+            plan["wend"] += rng.choice([0.5, 0.001, 0.999])
+        if plan["wstart"] is not None and plan["wend"] is not None and plan["wend"] < plan["wstart"]:
+            plan["wend"] = plan["wstart"]
     if i % 5 == 4:
         # thread tier: the thread that replays existing files (dispatch without window test, as
         # DigitalRFMirror.start() does on the caller's thread) runs concurrently with the observer thread that
         # delivers live events to the same handler object; a seeded baton decides every switch between them
         replay = []
         for _ in range(rng.randrange(3, 8)):
-            ms = (wstart if wstart is not None else BASE * 1000) + rng.choice([-5000, -1000, -1, 0, 500, 7000, 70000])
+            ms = int(wstart if wstart is not None else BASE * 1000) + rng.choice([-5000, -1000, -1, 0, 500, 7000, 70000])
             nm = rng.choice(["rf@%d.%03d.h5" % (ms // 1000, ms % 1000), "metadata@%d.h5" % (ms // 1000)])
             replay.append("ch0/%s/%s" % (SUBDIRS[0], nm))
         plan["threads"] = {"seed": rng.randrange(2**32), "p_switch": rng.choice([0.05, 0.2, 0.5]), "replay": replay,
